@@ -512,21 +512,21 @@ theorem sinv_initLoop (l : List String) : ∀ (s : St) (i : Nat), SInv s → SIn
     apply sinv_newEndpoint
     exact sinv_of_sub h (fun e he => (List.mem_filter.mp he).1) rfl rfl rfl rfl
 
-theorem sinv_init {r d : Int} {l : List String} {s : St} (h : init r d l = some s) : SInv s := by
+theorem sinv_init {r d : Int} {l : List String} {s : St} (h : initRaw r d l = some s) : SInv s := by
   cases l with
-  | nil => simp [init] at h
+  | nil => simp [initRaw] at h
   | cons first rest =>
-    simp only [init, Option.some.injEq] at h
+    simp only [initRaw, Option.some.injEq] at h
     subst h
     apply sinv_initLoop
     constructor <;> simp
 
-theorem sinv_step {s : St} (h : SInv s) (hi : Inv s) (ht : TInv s none) (op : Op) : SInv (step s op).1 := by
+theorem sinv_step {s : St} (h : SInv s) (hi : Inv s) (ht : TInv s none) (op : Op) : SInv (stepRaw s op).1 := by
   cases op with
   | setAvail e a => exact sinv_muc (sinv_sea h hi.toBase ht e a)
   | setEndpoints l => exact sinv_opSetEndpoints h l
   | advance dt =>
-    simp only [step]
+    simp only [stepRaw]
     constructor
     · intro e he tl hl; have := h.lcNow e he tl hl; show tl ≤ s.now + dt; omega
     · intro t htm obj id stamp hk
@@ -542,8 +542,8 @@ theorem sinv_step {s : St} (h : SInv s) (hi : Inv s) (ht : TInv s none) (op : Op
 
 theorem reach_sinv {s : St} (h : Reach s) : SInv s := by
   induction h with
-  | init _ _ hi => exact sinv_init hi
-  | step op hr ih => exact sinv_step ih (reach_inv hr) (reach_tinv hr) op
+  | initRaw _ _ hi => exact sinv_init hi
+  | stepRaw op hr ih => exact sinv_step ih (reach_inv hr) (reach_tinv hr) op
 
 /-! ## what each operation does to the `available` flags -/
 
@@ -749,20 +749,20 @@ def recordReport (s : St) (ρ : String → Option Bool) : Op → String → Opti
 
 /-- reachable states together with the history record -/
 inductive ReachR : St → (String → Option Bool) → Prop where
-  | init {r d : Int} {l : List String} {s : St} : 0 ≤ r → 0 ≤ d → init r d l = some s → ReachR s (fun _ => none)
-  | step {s : St} {ρ : String → Option Bool} (op : Op) : ReachR s ρ → ReachR (step s op).1 (recordReport s ρ op)
+  | initRaw {r d : Int} {l : List String} {s : St} : 0 ≤ r → 0 ≤ d → initRaw r d l = some s → ReachR s (fun _ => none)
+  | stepRaw {s : St} {ρ : String → Option Bool} (op : Op) : ReachR s ρ → ReachR (stepRaw s op).1 (recordReport s ρ op)
 
 theorem ReachR.reach {s : St} {ρ : String → Option Bool} (h : ReachR s ρ) : Reach s := by
   induction h with
-  | init hr hd hi => exact Reach.init hr hd hi
-  | step op _ ih => exact Reach.step op ih
+  | initRaw hr hd hi => exact Reach.initRaw hr hd hi
+  | stepRaw op _ ih => exact Reach.stepRaw op ih
 
-theorem init_not_available {r d : Int} {l : List String} {s : St} (h : init r d l = some s) :
+theorem init_not_available {r d : Int} {l : List String} {s : St} (h : initRaw r d l = some s) :
     ∀ e ∈ s.eps, e.status ≠ .available := by
   cases l with
-  | nil => simp [init] at h
+  | nil => simp [initRaw] at h
   | cons first rest =>
-    simp only [init, Option.some.injEq] at h
+    simp only [initRaw, Option.some.injEq] at h
     subst h
     suffices hl : ∀ (l : List String) (s : St) (i : Nat), (∀ e ∈ s.eps, e.status ≠ .available) →
         ∀ e ∈ (initLoop s l i).eps, e.status ≠ .available from hl _ _ _ (by intro e he; cases he)
@@ -786,19 +786,19 @@ theorem init_not_available {r d : Int} {l : List String} {s : St} (h : init r d 
 theorem status_matches_reports {s : St} {ρ : String → Option Bool} (h : ReachR s ρ) :
     ∀ e ∈ s.eps, (e.status = .available ↔ ρ e.id = some true) := by
   induction h with
-  | init _ _ hi =>
+  | initRaw _ _ hi =>
     intro e he
     constructor
     · intro h; exact absurd h (init_not_available hi e he)
     · intro h; cases h
-  | @step s ρ op hr ih =>
+  | @stepRaw s ρ op hr ih =>
     have hreach := hr.reach
     have hb := (reach_inv hreach).toBase
     cases op with
     | setAvail id a =>
       intro y hy
       have hy' : y ∈ (setEndpointAvailability s id a).eps := by
-        simp only [step, opSetAvail] at hy
+        simp only [stepRaw, opSetAvail] at hy
         rw [(muc_fields _).1] at hy; exact hy
       obtain ⟨x, hx, e1, e2, e3⟩ := sea_av hb.idInj id a y hy'
       simp only [recordReport]
@@ -812,7 +812,7 @@ theorem status_matches_reports {s : St} {ρ : String → Option Bool} (h : Reach
         rw [e3 hxid, e1]; exact ih x hx
     | setEndpoints l =>
       intro y hy
-      simp only [step, opSetEndpoints] at hy
+      simp only [stepRaw, opSetEndpoints] at hy
       simp only [recordReport]
       by_cases hl : l.isEmpty = true
       · simp only [hl, ↓reduceIte] at hy ⊢; exact ih y hy
@@ -854,26 +854,26 @@ theorem status_matches_reports {s : St} {ρ : String → Option Bool} (h : Reach
 /-- the same over operation lists -/
 def runR (s : St) (ρ : String → Option Bool) : List Op → St × (String → Option Bool)
   | [] => (s, ρ)
-  | op :: ops => runR (step s op).1 (recordReport s ρ op) ops
+  | op :: ops => runR (stepRaw s op).1 (recordReport s ρ op) ops
 
 theorem reachR_runR {s : St} {ρ : String → Option Bool} (h : ReachR s ρ) (ops : List Op) :
     ReachR (runR s ρ ops).1 (runR s ρ ops).2 := by
   induction ops generalizing s ρ with
   | nil => exact h
-  | cons op ops ih => exact ih (ReachR.step op h)
+  | cons op ops ih => exact ih (ReachR.stepRaw op h)
 
 theorem status_matches_reports_run {r d : Int} {l : List String} {s0 : St} (hr : 0 ≤ r) (hd : 0 ≤ d)
-    (hi : init r d l = some s0) (ops : List Op) :
+    (hi : initRaw r d l = some s0) (ops : List Op) :
     ∀ e ∈ (runR s0 (fun _ => none) ops).1.eps,
       (e.status = .available ↔ (runR s0 (fun _ => none) ops).2 e.id = some true) :=
-  status_matches_reports (reachR_runR (ReachR.init hr hd hi) ops)
+  status_matches_reports (reachR_runR (ReachR.initRaw hr hd hi) ops)
 
 /-- a history of the kind the theorem is about (test, by evaluation): `a` goes down and up again at one
     clock reading, the clock passes the recovery timeout, whatever timer is left fires: `a` is still
     available and still current -/
 def exOps : List Op := [.setAvail "a" true, .setAvail "b" true, .setAvail "a" false, .setAvail "a" true,
                          .advance 11, .fire 0, .fire 1, .fire 2]
-def exRun : Option (St × (String → Option Bool)) := (init 10 0 ["a", "b"]).map fun s0 => runR s0 (fun _ => none) exOps
+def exRun : Option (St × (String → Option Bool)) := (initRaw 10 0 ["a", "b"]).map fun s0 => runR s0 (fun _ => none) exOps
 example : (exRun.map fun r => (r.1.current, r.2 "a", r.1.eps.map fun e => (e.id, e.status))) =
     some ("a", some true, [("a", .available), ("b", .available)]) := by decide
 
